@@ -1,13 +1,93 @@
 (* C07 -- isoparse inverts every ISO-8601 rendering.
    Statements only; proofs are in iso/IsoThm*.v over the hand-written model iso/IsoModel.v
-   (tied to /repo/src/dateutil/parser/isoparser.py by harness/check_C07.py). *)
+   (tied to /repo/src/dateutil/parser/isoparser.py by harness/check_C07.py).
+   render_iso / render_date / render_time / render_off, wf_fmt, expected, trunc_* are the
+   specification of iso/IsoSpec.v (Part B). *)
 From Coq Require Import ZArith List Bool.
-From V Require Import base.Cal iso.IsoBase iso.IsoModel iso.IsoSpec iso.IsoThm.
+From V Require Import base.Cal iso.IsoBase iso.IsoModel iso.IsoSpec iso.IsoThm iso.IsoThmTz iso.IsoThmTime
+                      iso.IsoThmWeek iso.IsoThmMain iso.IsoThmRender.
 Import ListNotations.
 Open Scope Z_scope.
+
+(* the inverse law: every date form x time form x fraction digits (any number >= 1, dot or comma)
+   x separator byte (configured or not) x offset form, every datetime 0001-01-01 .. 9999-12-31:
+   parsing the rendering returns the datetime truncated to the rendered precision, offset zero
+   as UTC *)
+Theorem C07_isoparse_render : forall f sep o dt,
+  wf_fmt f sep o = true -> valid_dt dt = true ->
+  isoparse sep (render_iso f dt o) = Ok (expected f dt o).
+Proof. exact isoparse_render. Qed.
+Print Assumptions C07_isoparse_render.
+
+(* 24:00 (all other time fields zero) is 00:00 of the following day; after 9999-12-31 it is a
+   ValueError (expected_2400 = None) *)
+Theorem C07_isoparse_2400 : forall f sep o y m d,
+  wf_fmt_2400 f sep o = true -> valid_ymd y m d = true ->
+  isoparse sep (render_iso_2400 f (y, m, d) o) = lift (expected_2400 (y, m, d) o).
+Proof. exact isoparse_2400. Qed.
+Print Assumptions C07_isoparse_2400.
+
+(* date-only entry point, all ten date forms *)
+Theorem C07_parse_isodate_render : forall f y m d, valid_ymd y m d = true ->
+  parse_isodate (render_date f y m d) = Ok (trunc_date f y m d).
+Proof. exact parse_isodate_render. Qed.
+Print Assumptions C07_parse_isodate_render.
+
+(* time-only entry point, all seven time forms with any offset form *)
+Theorem C07_parse_isotime_render : forall ts h mi s us o,
+  wf_tspec ts = true -> wf_off o = true -> valid_hmsu h mi s us = true ->
+  parse_isotime (render_time ts h mi s us ++ render_off o) =
+  Ok (let '(h', mi', s', us') := trunc_time ts h mi s us in (h', mi', s', us', tz_of o)).
+Proof. exact parse_isotime_render. Qed.
+Print Assumptions C07_parse_isotime_render.
+
+Theorem C07_parse_isotime_2400 : forall ts o,
+  wf_tspec ts = true -> wf_off o = true ->
+  (let '(TS _ _ _ extra) := ts in forallb (Z.eqb 0) extra = true) ->
+  parse_isotime (render_time ts 24 0 0 0 ++ render_off o) = Ok (0, 0, 0, 0, tz_of o).
+Proof. exact parse_isotime_2400_render. Qed.
+Print Assumptions C07_parse_isotime_2400.
 
 (* offset-only entry point: Z / z / +-HH / +-HHMM / +-HH:MM, zero offset is UTC *)
 Theorem C07_parse_tzstr_render : forall o,
   o <> ONone -> wf_off o = true -> parse_tzstr (render_off o) true = Ok (tz_of o).
 Proof. exact parse_tzstr_render_lemma. Qed.
 Print Assumptions C07_parse_tzstr_render.
+
+(* _calculate_weekdate is the inverse of date.isocalendar, for every date 0001-01-01 .. 9999-12-31 *)
+Theorem C07_weekdate_inverse : forall y m d, valid_ymd y m d = true ->
+  let '(iy, iw, id) := isocalendar (ord_of_ymd y m d) in calculate_weekdate iy iw id = Ok (y, m, d).
+Proof. exact weekdate_inverse_lemma. Qed.
+Print Assumptions C07_weekdate_inverse.
+
+(* non-vacuity: concrete formats / datetimes inside the guards, and what they render to *)
+Example C07_ex_wf :
+  let f := mkFmt FWeekDayX (Some (TS TFracX true 8 [7; 8])) 84 in
+  wf_fmt f None (OHH_MM true 5 30) = true /\ wf_fmt f (Some 84) (OHH_MM true 5 30) = true /\
+  valid_dt (2014, 12, 29, 12, 30, 45, 123456) = true /\
+  render_iso f (2014, 12, 29, 12, 30, 45, 123456) (OHH_MM true 5 30)
+    = map Z.of_nat [50;48;49;53;45;87;48;49;45;49;84;49;50;58;51;48;58;52;53;44;49;50;51;52;53;54;55;56;45;48;53;58;51;48]%nat
+  /\ expected f (2014, 12, 29, 12, 30, 45, 123456) (OHH_MM true 5 30)
+    = (2014, 12, 29, 12, 30, 45, 123456, TzOff (-19800)).       (* '2015-W01-1T12:30:45,12345678-05:30' *)
+Proof. vm_compute. repeat split; reflexivity. Qed.
+Example C07_ex_2400 :
+  let f := mkFmt FOrdB (Some (TS TMinX false 0 [])) 32 in
+  wf_fmt_2400 f None (OZulu false) = true /\ valid_ymd 9999 12 31 = true /\
+  expected_2400 (9999, 12, 31) (OZulu false) = None /\
+  expected_2400 (2016, 12, 31) (OZulu false) = Some (2017, 1, 1, 0, 0, 0, 0, TzUTC) /\
+  render_iso_2400 f (2016, 12, 31) (OZulu false)
+    = map Z.of_nat [50;48;49;54;51;54;54;32;50;52;58;48;48;90]%nat.        (* '2016366 24:00Z' *)
+Proof. vm_compute. repeat split; reflexivity. Qed.
+Example C07_ex_aux :
+  valid_ymd 2009 12 31 = true /\ trunc_date FWeekB 2009 12 31 = (2009, 12, 28) /\
+  render_date FWeekB 2009 12 31 = map Z.of_nat [50;48;48;57;87;53;51]%nat /\           (* '2009W53' *)
+  wf_tspec (TS TFracB false 3 []) = true /\ wf_off (OHHMM false 0 0) = true /\
+  valid_hmsu 23 59 59 999999 = true /\ tz_of (OHHMM false 0 0) = TzUTC /\
+  trunc_time (TS TFracB false 3 []) 23 59 59 999999 = (23, 59, 59, 999000).
+Proof. vm_compute. repeat split; reflexivity. Qed.
+Example C07_ex_time_2400 :
+  wf_tspec (TS TFracX false 7 [0]) = true /\ wf_off (OHH true 3) = true /\ OHH true 3 <> ONone /\
+  forallb (Z.eqb 0) [0] = true /\
+  render_time (TS TFracX false 7 [0]) 24 0 0 0 ++ render_off (OHH true 3)
+    = map Z.of_nat [50;52;58;48;48;58;48;48;46;48;48;48;48;48;48;48;45;48;51]%nat.   (* '24:00:00.0000000-03' *)
+Proof. vm_compute. repeat split; try reflexivity. discriminate. Qed.
